@@ -30,6 +30,17 @@ func body(k int, r *gen.Rand) packet.Packet {
 		p = *packet.New()
 	default:
 		r.Fill(p[:])
+		// bodies with structure a setter might be tempted to "keep consistent": a PES packet start (with
+		// PES_scrambling_control / priority bits set) directly behind the header or behind a short adaptation
+		// field, a section start, a full adaptation field
+		switch r.Intn(6) {
+		case 0:
+			copy(p[4:], []byte{0x00, 0x00, 0x01, 0xe0, 0x00, 0x00, 0x80 | byte(r.Intn(64)), 0xc0, 0x0a})
+		case 1:
+			copy(p[4:], []byte{0x02, 0x10, 0xff, 0x00, 0x00, 0x01, 0xbd, 0x00, 0x00, 0xb0 | byte(r.Intn(16)), 0x80, 0x05})
+		case 2:
+			copy(p[4:], []byte{0x00, 0x02, 0xb0, 0x12})
+		}
 	}
 	return p
 }
